@@ -32,8 +32,8 @@ func VH_C01_ConcurrentSession() {
 	}
 	id := open()
 	vh.Assert(vhDo(s, "PATCH", "/v2/a/blobs/uploads/"+id, vhQ("state", vhStateToken(0)), nil, x).Status() == 202, "C01.setup")
-	scenario := vh.Choice("scenario", 4)
-	names := []string{"complete-vs-late-chunk", "complete-vs-complete", "complete-vs-cancel", "two-sessions-same-content"}
+	scenario := vh.Choice("scenario", 5)
+	names := []string{"complete-vs-late-chunk", "complete-vs-complete", "complete-vs-cancel", "two-sessions-same-content", "two-monolithic-pushes-same-content"}
 	vh.Tag("scenario", names[scenario])
 	switches := vh.Param("SWITCHES", 2)
 	dx, dxy := digest.Canonical.FromBytes(x), digest.Canonical.FromBytes([]byte("xy"))
@@ -77,6 +77,12 @@ func VH_C01_ConcurrentSession() {
 		vh.Go(func() {
 			c1 = vhDo(s, "PUT", "/v2/a/blobs/uploads/"+id, vhQ("state", vhStateToken(1), "digest", dx.String()), nil, nil).Status()
 		})
+	case 4:
+		// two clients push the same content in one request each (POST ?digest=): both
+		// sessions are created for that digest before either completes
+		vh.Preempt(switches)
+		vh.Go(func() { _, c2 = vhPushBlob(s, "a", x) })
+		vh.Go(func() { _, c1 = vhPushBlob(s, "a", x) })
 	}
 	vh.Join()
 	vh.Preempt(0)
@@ -97,6 +103,12 @@ func VH_C01_ConcurrentSession() {
 	}
 	// whatever was acknowledged is readable (for two requests racing on ONE session this
 	// fails on the unchanged tree: known finding K4, see DESIGN 9.4)
+	if vh.Param("LIVENESS", 0) == 1 {
+		// registered under C12: only "every request came back and later requests are
+		// answered" (the reads above) is the subject there
+		vh.Cover("C01.race-end")
+		return
+	}
 	if c1 == 201 {
 		g := vhGetBlob(s, "a", dx)
 		vh.Assert(g.Status() == 200 && vhBytesEq(g.Body, x), "C01.acknowledged-readable")
@@ -106,7 +118,7 @@ func VH_C01_ConcurrentSession() {
 		g := vhGetBlob(s, "a", dxy)
 		vh.Assert(g.Status() == 200 && vhBytesEq(g.Body, []byte("xy")), "C01.acknowledged-readable")
 	}
-	if scenario == 3 {
+	if scenario == 3 || scenario == 4 {
 		vh.Assert(c1 == 201 && c2 == 201, "C01.independent-session-refused")
 	}
 	vh.Cover("C01.race-end")
